@@ -325,6 +325,56 @@ let handle_fw = function
       Printf.sprintf "%s %s %s" id (hex_of_bytes out) (String.concat "," (List.map (fun b -> if b then "ok" else "err") vs))
   | _ -> failwith "bad FW line"
 
+(* ---------- CP / CR: the command line ----------
+   CP <id> <arghex,arghex,...|->                      parse_args, and the resolved source format of every input
+   CR <id> <P|F|T> <fault|-> <broken 0|1> <to|-> <bcap> <input;input;...|->   input = pathhex:E|S|D:ok:chunkhex+chunkhex *)
+
+let fmt_name = function Json -> "json" | Msgpack -> "msgpack" | Toml -> "toml" | Yaml -> "yaml"
+let optfmt = function None -> "-" | Some f -> fmt_name f
+let lerr_name = function
+  | EUnexpectedValue -> "unexpected-value" | EMissingValue -> "missing-value" | EUnexpectedOption -> "unexpected-option"
+  | EBadFormat -> "bad-format" | EDupFrom -> "dup-from" | EDupTo -> "dup-to"
+
+let handle_cp = function
+  | [ id; args ] ->
+      let argv = List.map (fun h -> if h = "e" then [] else bytes_of_hex h) (split_on ',' args) in
+      (match parse_args argv with
+      | PUsage e -> Printf.sprintf "%s usage %s" id (lerr_name e)
+      | PExit0 XVersion -> id ^ " exit0 version"
+      | PExit0 XHelpShort -> id ^ " exit0 help-short"
+      | PExit0 XHelpLong -> id ^ " exit0 help-long"
+      | POutOfFuel -> id ^ " outoffuel"
+      | PArgs c ->
+          let paths = match c.c_inputs with [] -> [ bytes_of_hex "2d" ] | ps -> ps in
+          Printf.sprintf "%s args from=%s to=%s inputs=%s resolved=%s" id (optfmt c.c_from) (optfmt c.c_to)
+            (String.concat "," (List.map (fun p -> if p = [] then "e" else hex_of_bytes p) paths))
+            (String.concat "," (List.map (fun p -> optfmt (resolve_from c p)) paths)))
+  | [ id ] -> (match parse_args [] with PArgs _ -> id ^ " args from=- to=- inputs=2d resolved=-" | _ -> id ^ " ?")
+  | _ -> failwith "bad CP line"
+
+let handle_cr = function
+  | [ id; kind; fault; broken; to_; bcap; inputs ] ->
+      let kind = match kind with "P" -> KPipe | "F" -> KFile | _ -> KTty in
+      let flt = if fault = "-" then None else Some (nat_of_int (int_of_string fault)) in
+      let d = { dsink = { acc = []; wfault = flt }; dbroken = broken = "1" } in
+      let c = { c_inputs = []; c_from = None; c_to = (if to_ = "-" then None else Some (fmt_of_string to_)) } in
+      let parse_inp s =
+        match String.split_on_char ':' s with
+        | [ path; o; ok; tr ] ->
+            { i_path = bytes_of_hex path;
+              i_open = (match o with "E" -> OpenErr | "S" -> OpenStdin | _ -> OpenData);
+              i_trace = (if tr = "" then [] else List.map bytes_of_hex (String.split_on_char '+' tr));
+              i_ok = ok = "1" }
+        | _ -> failwith "bad input"
+      in
+      let ins = if inputs = "-" then [] else List.map parse_inp (String.split_on_char ';' inputs) in
+      let o = run_cli (fun _ -> nat_of_int 1000000) (nat_of_int (int_of_string bcap)) c kind d ins in
+      let st = match o.o_status with Exit n -> Printf.sprintf "exit%d" (int_of_nat n) | Signal13 -> "sigpipe" in
+      let er = match o.o_stderr with ErrNone -> "none" | ErrPlain -> "plain" | ErrPath p -> "path:" ^ hex_of_bytes p | ErrUsage -> "usage" in
+      Printf.sprintf "%s %s %s %s opened=%s stdin=%d" id st (hex_of_bytes o.o_stdout) er
+        (String.concat "," (List.map hex_of_bytes o.o_opened)) (int_of_nat o.o_stdin_reads)
+  | _ -> failwith "bad CR line"
+
 let () =
   try
     while true do
@@ -337,6 +387,8 @@ let () =
           | "MS" :: rest -> handle_ms rest
           | "FT" :: rest -> handle_ft rest
           | "FW" :: rest -> handle_fw rest
+          | "CP" :: rest -> handle_cp rest
+          | "CR" :: rest -> handle_cr rest
           | "T" :: rest -> handle_t rest
           | "UD" :: rest -> handle_ud rest
           | "UR" :: rest -> handle_ur rest
